@@ -12,7 +12,8 @@
 (***************************************************************************)
 EXTENDS Naturals, Sequences, FiniteSets, TLC, Json
 
-CONSTANTS Names, Srcs, Contents, MaxLen
+CONSTANTS Names, Srcs, Contents, MaxLen,
+          Race      \* BOOLEAN: a producer may still be writing the source file while it is being registered (AddRace)
 
 VARIABLES src, man, disk, hist
 vars == <<src, man, disk, hist>>
@@ -42,6 +43,20 @@ Add(n, s, c) ==
      /\ man' = m2 /\ disk' = d2
      /\ Log([k |-> "add", n |-> n, s |-> s, c |-> c], m2, d2)
 
+\* add_named_file(name=n, path=s) while a producer is still writing s: the source holds c when the call begins and c2 when it
+\* returns.  Registration reads the source ONCE (the copy into the file home) - before the producer's write (late) or after it
+\* (early) - and everything else (file name, manifest fingerprint) is derived from the bytes that landed: whichever content was
+\* captured, it is filed under its own hash.  Two atomic reads of the source in one registration are what this action forbids.
+AddRace(n, s, c, c2, early) ==
+  LET landed == IF early THEN c2 ELSE c
+      v == Ver(s, landed)
+      m2 == [man EXCEPT ![n] = IF Len(@) > 0 /\ Last(@) = v THEN @ ELSE Append(@, v)]
+      d2 == [disk EXCEPT ![n] = @ \cup {v}]
+  IN /\ Race /\ c2 # c
+     /\ src' = [src EXCEPT ![s] = c2]
+     /\ man' = m2 /\ disk' = d2
+     /\ Log([k |-> "addrace", n |-> n, s |-> s, c |-> c, c2 |-> c2, early |-> early], m2, d2)
+
 \* the source file is edited after registration: the store must not notice
 Mutate(s, c) == /\ src[s] # 0 /\ src[s] # c
                 /\ src' = [src EXCEPT ![s] = c]
@@ -60,6 +75,7 @@ NewInstance == /\ UNCHANGED store
 
 Next == /\ Len(hist) < MaxLen
         /\ \/ \E n \in Names, s \in Srcs, c \in Contents : Add(n, s, c)
+           \/ \E n \in Names, s \in Srcs, c \in Contents, c2 \in Contents, early \in BOOLEAN : AddRace(n, s, c, c2, early)
            \/ \E s \in Srcs, c \in Contents : Mutate(s, c)
            \/ \E n \in Names : Remove(n)
            \/ NewInstance
